@@ -24,6 +24,16 @@ PROPERTIES = {
     },
 }
 
+PROPERTIES['C12'] = {
+    'modules': ['harness.c12_tokens'],
+    'budget': {'quick': 900, 'thorough': 3000},
+    'level_text': 'Bounded symbolic checking of every token class\'s real codec: the text is a tuple of symbolic Unicode code points '
+                  '(every string up to the length bound), the class\'s own terminal regex decides lexeme-hood, and from_raw_text / '
+                  'value / from_value / setters are executed symbolically and compared (round trip, single-lexeme, text kept verbatim).',
+    'level_note': 'Trusted: CrossHair, z3, symre (validated against re on every run). Strings <= 7 code points; value->text of Date and '
+                  'Number only on solver-enumerated boundary witnesses (format() is a realisation boundary).',
+}
+
 NOT_APPLICABLE = {
     'C16': 'The property is about the operating system and C io layer behind editor.py (text-mode newline translation, pathlib/glob/'
            'os.unlink/os.makedirs, mtimes): none of it can be executed symbolically by CrossHair or encoded for z3, CrossHair forbids '
